@@ -179,7 +179,8 @@ func (g *gsm7Decoder) Transform(dst, src []byte, atEOF bool) (nDst, nSrc int, er
 				septets = append(septets, (src[count+4]&0x07<<4)|(src[count+3]&0xF0>>4))
 				septets = append(septets, (src[count+5]&0x03<<5)|(src[count+4]&0xF8>>3))
 				septets = append(septets, (src[count+6]&0x01<<6)|(src[count+5]&0xFC>>2))
-				if src[count+6] > 0 {
+				// an all-zero 7th octet means padding only in the last group of the message
+				if src[count+6] > 0 || remain > 7 {
 					septets = append(septets, src[count+6]&0xFE>>1)
 				}
 				count += 7
@@ -232,7 +233,7 @@ func (g *gsm7Decoder) Transform(dst, src []byte, atEOF bool) (nDst, nSrc int, er
 	// 第一个判断依据：当原文长度经过 encode 之后，长度满足 8*n-1，就会出现上面这个 case。
 	// 例1：1234567ahifbewibaimwnfe，长度为 23，没有 escaped 字符，encode 之后长度也为 23，满足 8*n-1，Decode 之后的内容为 "1234567ahifbewibaimwnfe\r"；
 	// 例2：1234567ahifbewi[imwnfe，原来长度是 22，encode 后 [ 占两个字节，所以encode后长度是 23，也符合 8*n-1.
-	if g.packed && len(septets)%8 == 0 && septets[len(septets)-1] == 0x0d {
+	if g.packed && len(septets) > 0 && len(septets)%8 == 0 && septets[len(septets)-1] == 0x0d {
 		septets = septets[:len(septets)-1]
 	}
 
@@ -515,7 +516,8 @@ func Unpack(src []byte) (septets []byte) {
 			septets = append(septets, (src[count+4]&0x07<<4)|(src[count+3]&0xF0>>4))
 			septets = append(septets, (src[count+5]&0x03<<5)|(src[count+4]&0xF8>>3))
 			septets = append(septets, (src[count+6]&0x01<<6)|(src[count+5]&0xFC>>2))
-			if src[count+6] > 0 {
+			// an all-zero 7th octet means padding only in the last group of the message
+			if src[count+6] > 0 || remain > 7 {
 				septets = append(septets, src[count+6]&0xFE>>1)
 			}
 			count += 7
@@ -563,7 +565,7 @@ func Unpack(src []byte) (septets []byte) {
 	// 第一个判断依据：当原文长度经过 encode 之后，长度满足 8*n-1，就会出现上面这个 case。
 	// 例1：1234567ahifbewibaimwnfe，长度为 23，没有 escaped 字符，encode 之后长度也为 23，满足 8*n-1，Decode 之后的内容为 "1234567ahifbewibaimwnfe\r"；
 	// 例2：1234567ahifbewi[imwnfe，原来长度是 22，encode 后 [ 占两个字节，所以encode后长度是 23，也符合 8*n-1.
-	if len(septets)%8 == 0 && septets[len(septets)-1] == 0x0d {
+	if len(septets) > 0 && len(septets)%8 == 0 && septets[len(septets)-1] == 0x0d {
 		septets = septets[:len(septets)-1]
 	}
 	return septets
